@@ -214,3 +214,62 @@ HARNESSES = [
              'carbon.cache:_MetricCache.get_datapoints', 'carbon.cache:*Strategy'],
     assumptions=_ASSUME + ['sequences of <= 3 (quick) / <= 4 (thorough) operations store/drain over 2 metrics x 2 timestamps from the empty cache']),
 ]
+
+
+# ---- interleavings: receiver thread vs writer thread at statement granularity ------------------------------------
+from vp_lib import racelab as R  # noqa: E402
+
+
+def _race_args(b0, b1, b2, b3, mi, ti, v, p1, n, p2):
+  stores = [(L.METRICS[mi], L.STAMPS[ti], v)]
+  plan = [('W', p1), ('R', n)] + ([('W', p2)] if p2 else [])
+  return [b0, b1, b2, b3], stores, plan
+
+
+def C02_race(strat: int, b0: bool, b1: bool, b2: bool, b3: bool, pv: int, mi: int, ti: int, v: int, p1: int, n: int, p2: int, nd: int) -> bool:
+  """
+  pre: 0 <= strat <= 6
+  pre: 0 <= mi <= 2 and 0 <= ti <= 2
+  pre: 0 <= p1 <= 30 and 0 <= n <= 12 and 0 <= p2 <= 8
+  pre: 1 <= nd <= 2
+  post: __return__
+  """
+  bits, stores, plan = _race_args(b0, b1, b2, b3, mi, ti, v, p1, n, p2)
+  out = R.symbolic_run(strat, bits, pv, stores, nd, plan)
+  if [t for t in out.trace if t[0] == 'R'] and [t for t in out.trace if t[0] == 'W']:
+    cover('interleaved')
+  if out.errors:
+    return True                      # exceptions inside store/drain are C17's clause (C17_race)
+  if out.size_bad is not None:
+    raise AssertionError('lock free but size %r != %r datapoints held (after a step of %s)' % (out.size_bad[1], out.size_bad[2], out.size_bad[0]))
+  problem = R.conservation_problem(out, stores)
+  if problem:
+    raise AssertionError(problem)
+  return True
+
+
+def replay_race(strat, b0, b1, b2, b3, pv, mi, ti, v, p1, n, p2, nd):
+  """Re-run the schedule on the coroutines to get the statement trace, then enforce that trace on real
+  threads running the real carbon.cache."""
+  bits, stores, plan = _race_args(b0, b1, b2, b3, mi, ti, v, p1, n, p2)
+  sym = R.symbolic_run(strat, bits, pv, stores, nd, plan)
+  out = R.real_run(strat, bits, pv, stores, nd, sym.trace)
+  if out.replay_problems:
+    raise RuntimeError('schedule could not be enforced on real threads: %r' % (out.replay_problems,))
+  if out.errors:
+    return True
+  return R.conservation_problem(out, stores) is None
+
+
+_RS = [('s%d_%s_m%d_d%d' % (i, n or 'none', m, d), 'strat == %d and mi == %d and nd == %d' % (i, m, d)) for i, n in enumerate(L.STRATEGY_NAMES) for m in range(3) for d in (1, 2)]
+_RQ = [('s%d_%s_m%d' % (i, L.STRATEGY_NAMES[i] or 'none', m), 'strat == %d and mi == %d and nd == 1' % (i, m)) for i in (0, 3, 6) for m in (0, 2)]
+HARNESSES.append(
+  H('C02_race', quick=dict(timeout=280, shards=_RQ, extra_pre=['p2 == 0', 'b1 == False and b3 == False', 'ti != 1']), thorough=dict(timeout=1500, shards=_RS, extra_pre=['b3 == False']),
+    covers=['interleaved'], replay='replay_race', twin_pre=['strat == 3 and mi == 0'],
+    encodes=['carbon.cache:_MetricCache.store', 'carbon.cache:_MetricCache.drain_metric', 'carbon.cache:_MetricCache.pop',
+             'carbon.cache:_MetricCache._check_available_space', 'carbon.cache:*Strategy.choose_item / store (statement-level coroutines)'],
+    assumptions=['schedules: the writer (one drain quick / one or two thorough) runs p1 statements, the receiver (one store: symbolic metric, timestamp, value) runs n statements or until it '
+                 'blocks on the lock, [thorough: the writer runs p2 more,] then both run to completion; p1 <= 16, n <= 12, p2 <= 8 exceed the number of yield points '
+                 'of the instrumented functions; more preemptions and sub-statement (GIL-level) interleavings are outside',
+                 'coroutines regenerated from the current source of carbon.cache (log statements stripped); cooperative lock with atomic try-acquire; '
+                 'every counterexample replayed on real OS threads with the real threading.Lock, the schedule enforced by a line tracer'] + _ASSUME[2:]))
